@@ -37,6 +37,16 @@ CHECKS = {
          "Every event string to depth 8 (9) with <=2 (3) per-frame gate deviations from the full menu (window clock at start-1ns/start/start+1s/stop-1ns/stop/stop+1s/other day for a day window, a window spanning midnight and no window; disk check refused; creation refused; combinations), trigger-frames 0..3; a start must happen iff all five conditions of the statement hold, using the harness's own interval arithmetic.",
          "CPTVFileRecorder.checkDiskSpace itself (statfs arithmetic) is exercised in the C10/C11 file-level harness, not here.",
          "DESIGN.md §4 C04"),
+ "C05": ("A-sequential-explorer",
+         "explicit-state BFS to a fixpoint + exhaustive bounded tree on the real ThrottledRecorder with injected clock; arrival-curve monitor; composition under the real MotionProcessor",
+         "All request/clock schedules of any length (fixpoint on canonical keys, 10 exact-tick parameter sets) and all well-formed strings to depth 7 (10) for those plus 2 awkward rates; frames reaching the wrapped recorder are checked against bucket + refill earned (+1% and 2 frames) on every interval by an arrival-curve monitor carried in the state. The same throttle under the real motion processor: every motion bit-string to depth 12 (16) with clock jumps/resets/bad frames, and 400-frame continuous/burst patterns.",
+         "main.go's wiring of the throttle (activate flag, min+preview length) is checked end-to-end in the C11 harness, not here. The fixpoint key reads juju/ratelimit private fields (library version pinned by go.mod); the tree does not.",
+         "DESIGN.md §4 C05"),
+ "C06": ("A-sequential-explorer",
+         "same exploration as C05 with failing wrapped-recorder starts as deviations; step-by-step reference-model oracle and pairing monitor",
+         "Same fixpoint and tree as C05 with the wrapped recorder's start failing at arbitrary calls (<=1 quick, <=2 thorough per string; unbounded in the fixpoint); every upstream call is compared with the statement's reference (forwarded unchanged with budget, cut on an empty bucket, restart only with >= one minimum clip, remembered background/threshold, exactly one event per suppressed start or cut, paired start/write/stop, cut files >= minimum length).",
+         "Budget is read with Bucket.Available() at the same clock instant as each request (idempotent).",
+         "DESIGN.md §4 C06"),
 }
 NOT_BUILT = "check not built yet (work in progress)"
 
